@@ -69,6 +69,8 @@ THEOREMS = [
     "Cotengra.C16.step_inv",
     "Cotengra.C16.stepLocal_subopts_other",
     "Cotengra.C16.treeOf_runLog_stamp",
+    "Cotengra.C16.no_spurious_errors",
+    "Cotengra.C16.step_live",
     "Cotengra.C16.sequential_fresh",
     "Cotengra.C16.sequential_fresh_counterexample",
     "Cotengra.C16.sequential_fresh_partial",
